@@ -157,6 +157,30 @@ func genC04(r *Rng, tier string) []*Case {
 			cs = append(cs, mk("Scaled", sc))
 		}
 	}
+	// one large matrix (more than 1024 rows, not a multiple of 32): every row is canonicalised, the last ones too,
+	// and rows without entries get the pre-trust wherever they are
+	{
+		n := 1030 + r.Intn(80)
+		if n%32 == 0 {
+			n++
+		}
+		m := Mat{Major: n, Minor: n, Rows: make([][]Ent, n)}
+		for i := 0; i < n; i++ {
+			if r.Chance(4) || i == n-2 {
+				continue // no outgoing trust
+			}
+			a, b := r.Intn(n), r.Intn(n)
+			if a > b {
+				a, b = b, a
+			}
+			m.Rows[i] = []Ent{{I: a, V: JFloat(1 + r.Intn(5))}}
+			if b != a {
+				m.Rows[i] = append(m.Rows[i], Ent{I: b, V: JFloat(r.Pos())})
+			}
+		}
+		p := Vec{Dim: n, Ents: []Ent{{I: r.Intn(n / 2), V: 3}, {I: n/2 + r.Intn(n/2), V: 1}}}
+		cs = append(cs, mk("CanonLT", c04LT{M: m, P: &p}))
+	}
 	return cs
 }
 
